@@ -76,11 +76,32 @@ def run(tier, replay):
     if replay:
         lib.kverif("txn", ["c06", "--out", obs, "--db", db, "--schedules", replay], timeout=3000)
     else:
-        per = 2 if quick else 8
+        # (i) "atomic" families: the whole reader between two writer steps (W^j R^NR, every j) and the whole
+        #     writer between two reader steps (R^i W^NW R^(NR-i), every i): every reader step is executed at
+        #     every writer position at least once, so a change of either order shows up as a new vector;
+        # (ii) per reachable vector, witnesses found by TLC (shortest, longest, evenly spaced in between).
+        nr = max(s.count("R") for v in byvec.values() for s in v)
+        nw = max(s.count("W") for v in byvec.values() for s in v)
+        fam = ["W" * j + "R" * nr for j in range(nw + 1)] + ["R" * i + "W" * nw + "R" * (nr - i) for i in range(nr)]
+        allsched = {s: vec for vec, ss in byvec.items() for s in ss}
+        chosen = []
+        for s in fam:
+            if s not in chosen:
+                chosen.append(s)
+        covered = set(allsched[s] for s in chosen if s in allsched)
+        per = 1 if quick else 6
+        for vec in sorted(byvec):
+            if quick and vec in covered:
+                continue
+            for s in pick(byvec[vec], per):
+                if s not in chosen:
+                    chosen.append(s)
         with open(f"{wd}/schedules.ndjson", "w") as f:
-            for vec in sorted(byvec):
-                for s in pick(byvec[vec], per):
-                    f.write(json.dumps({"s": s, "pv": dict(zip(PROBES, vec))}) + "\n")
+            for s in chosen:
+                rec = {"s": s}
+                if s in allsched:
+                    rec["pv"] = dict(zip(PROBES, allsched[s]))
+                f.write(json.dumps(rec) + "\n")
         lib.kverif("txn", ["c06", "--out", obs, "--db", db, "--schedules", f"{wd}/schedules.ndjson"], timeout=3000)
     txn_common.cleanup(db)
     tv = lib.trace_validate("KTxnSnapTrace", obs, PID, timeout=1800)
@@ -92,7 +113,7 @@ def run(tier, replay):
         for sig, what in aspects(r["o1"], r["o2"]):
             R.violation(sig, f"schedule {r['s']}: {what}; the reader saw " +
                         " ".join(f"{p}={r['o1'][p]}" for p in PROBES) + f" (raw {r['raw1']})",
-                        [json.dumps({"s": r["s"], "pv": r["pv"]})])
+                        [json.dumps({"s": r["s"]})])
     seen = {}
     for r in recs:
         v = "".join(str(r["o1"][p]) for p in PROBES)
@@ -105,7 +126,7 @@ def run(tier, replay):
         "vectors_reachable_in_model_at_statement_granularity": len(finevec),
         "vectors_model_only": sorted("".join(map(str, v)) for v in finevec - set(byvec)),
         "vectors_observed_on_real_code": seen,
-        "predicted_equals_observed": sum(1 for r in recs if r["o1"] == r["pv"]),
+        "predicted_equals_observed": len(recs) - len(tv["drift"]),
         "mixed_vectors_observed": sorted(v for v in seen if len(set(v)) > 1),
         "l1_fail_lines": len(tv["l1fail"]),
         "l2_drift": len(tv["drift"]),
